@@ -77,6 +77,7 @@ def run(ctx):
     tcfg = ("SPECIFICATION TraceSpec\nCONSTANTS\n Clients = {\"c1\", \"c2\", \"c3\"}\n ReqKinds <- RKS\n WaitForStart = TRUE\n Graceful = TRUE\n SharedParams = FALSE\n Wrapped = TRUE\n AllowStop = TRUE\n"
             "CONSTRAINT HighWater\nPOSTCONDITION TraceAccepted\nINVARIANTS Drain ListenerReleased Isolation GaugeExact\nCHECK_DEADLOCK FALSE\n")
     ncli = 0
+    unexplained = []
     for sc, x in zip(scen, sg):
         if not x["ok"]:
             ctx.violation("gnark-mbu start + SIGINT with %d request(s) held at %s: %s" % (sc["k"], sc["hold"] or "no hook", x.get("detail")), dict(kind="srv-sigint", cases=x.get("case")))
@@ -90,9 +91,15 @@ def run(ctx):
         if hwm != total + 1:
             lines = open(tf).read().splitlines()
             inv = re.search(r"Invariant (\w+) is violated", r["out"])
-            ctx.violation("hook trace of `gnark-mbu start` + SIGINT (k=%d, hold=%s) rejected by TraceJob.tla at line %d of %d (%s): %s" % (
-                sc["k"], sc["hold"], hwm, total, inv.group(1) if inv else "no action of Server.tla explains the event", lines[hwm - 1] if hwm - 1 < len(lines) else "?"),
-                dict(kind="srv-sigint-trace", cases=dict(mode="deletion", depth=2, batch=1, scenarios=[sc]), trace=lines[:hwm]))
+            why = inv.group(1) if inv else sigint_oracle(lines)
+            if why:
+                ctx.violation("hook trace of `gnark-mbu start` + SIGINT (k=%d, hold=%s) rejected by TraceJob.tla at line %d of %d (%s): %s" % (
+                    sc["k"], sc["hold"], hwm, total, why, lines[hwm - 1] if hwm - 1 < len(lines) else "?"),
+                    dict(kind="srv-sigint-trace", cases=dict(mode="deletion", depth=2, batch=1, scenarios=[sc]), trace=lines[:hwm]))
+            else:
+                # no action of Server.tla explains the event, but what the property itself says about this run holds (see sigint_oracle):
+                # the implementation's protocol has changed shape; that is lost conformance, not a violation
+                unexplained.append("k=%d hold=%s line %d: %s" % (sc["k"], sc["hold"], hwm, lines[hwm - 1] if hwm - 1 < len(lines) else "?"))
         elif not r["ok"]:
             raise Infra("TraceJob failed:\n" + "\n".join(r["out"].splitlines()[-30:]))
         else:
@@ -100,6 +107,10 @@ def run(ctx):
             ctx.states += r["distinct"]
             ctx.transitions += r["generated"]
     ctx.cov["sigint_scenarios_validated"] = ncli
+    if unexplained and not ctx.violations:
+        raise Infra("TraceJob.tla no longer explains the hook traces of `gnark-mbu start` although every direct observation the property makes holds "
+                    "(all accepted requests answered, both servers stopped and their start goroutines returned before the outer AwaitStop returned, exit 0): "
+                    "the shutdown protocol has changed shape and Server.tla needs updating. " + "; ".join(unexplained[:3]))
     if beh and diverged * 2 > len(beh) and not ctx.violations:
         raise Infra("%d of %d schedules are infeasible on the real code (hooks and Server.tla disagree) and no property violation was observed: binding broken" % (diverged, len(beh)))
     ctx.traces_validated = len(beh)
@@ -109,6 +120,33 @@ def run(ctx):
     ctx.cov["rule"] = ("behaviours of ServerGen.tla (stop timed anywhere relative to both servers' start-up hooks and to 1..2 requests at every handler "
                        "progress point) replayed with every hook as a gate; at each decision the settled state (blocked goroutines, responses, AwaitStop "
                        "returned or not) must equal the spec's, then both addresses are bound; plus aligned ListenAndServe/Shutdown stress cycles")
+
+
+def sigint_oracle(lines):
+    """What C14 itself says about one recorded run of `gnark-mbu start` + SIGINT, independent of the shape of the job protocol.
+    Returns a description of the first failure or None.  Server labels (m / p) come from the hook's own label string; the outer job is
+    the one main() stops first."""
+    ev = [json.loads(l) for l in lines]
+    key = lambda e: (e.get("ev"), e.get("who"))
+    pos = {}
+    for i, e in enumerate(ev):
+        pos.setdefault(key(e), []).append(i)
+    if not ev or ev[-1].get("ev") != "exit":
+        return "the trace does not end with the process's exit"
+    end = len(ev) - 1
+    outer = pos.get(("job.await_return", "c"), [end])[-1]
+    for who, name in (("m", "metrics"), ("p", "prover")):
+        for what in ("srv.shutdown.end", "srv.start.end"):
+            at = pos.get((what, who))
+            if not at:
+                return "%s never happened for the %s server before the process exited" % (what, name)
+            if at[0] > outer:
+                return "waiting-for-stop returned (line %d) before %s of the %s server (line %d)" % (outer + 1, what, name, at[0] + 1)
+    for (e, who), at in pos.items():
+        if e == "prove.enter" and who:
+            if len(pos.get(("prove.respond", who), [])) < len(at):
+                return "request %s entered the handler and was never answered" % who
+    return None
 
 
 def replay(ctx, path):
